@@ -5,6 +5,7 @@ import (
 	"go/types"
 	"os"
 	"path/filepath"
+	"regexp"
 	"runtime/debug"
 	"sort"
 	"strings"
@@ -100,6 +101,27 @@ func (v *Verifier) verifyFunc(fn *ssa.Function, fc *FuncContract) (res *FuncResu
 			c.assume(not(c.load(st, gp, types.Typ[types.Bool])))
 		}
 	}
+	// axioms of the contract files whose package is loaded
+	for _, ax := range v.CS.Axioms {
+		var apkg *types.Package
+		if ax.Pkg != "" {
+			p := v.P.ByPath[ax.Pkg]
+			if p == nil {
+				if ax.Pkg != "std" {
+					continue
+				}
+			} else {
+				apkg = p.Types
+			}
+		}
+		ae := &Env{c: c, pkg: apkg, vars: map[string]Binding{}, st: st}
+		t, err := ae.evalBool(ax.E)
+		if err != nil {
+			panic(evalError{fmt.Sprintf("axiom %s (%s): %v", ax.Name, ax.Src, err)})
+		}
+		c.assume(t)
+		c.assumed["axiom "+ax.Name+": "+exprString(ax.E)] = true
+	}
 	// preconditions
 	env := fr.entryEnv()
 	for _, r := range fc.Requires {
@@ -158,6 +180,18 @@ func (v *Verifier) verifyFunc(fn *ssa.Function, fc *FuncContract) (res *FuncResu
 		fr.frameObligations(fc)
 	} else if len(fc.Ensures) > 0 {
 		res.Vacuity = append(res.Vacuity, "function has no normal return but has postconditions")
+	}
+	// every anchored clause must have bound to a call: an anchor that silently matches nothing
+	// would drop its obligation or ghost update
+	for _, g := range fc.GhostAts {
+		if g.Callee != "" && fr.callOrd["fired:"+g.Src] == 0 {
+			panic(evalError{fmt.Sprintf("ghost-at anchor did not match any call: %s (%s)", g.Callee, g.Src)})
+		}
+	}
+	for _, cs := range fc.CallSpecs {
+		if fr.callOrd["fired:"+cs.Src] == 0 {
+			panic(evalError{fmt.Sprintf("call-site clause did not match any call: at call[%d] %s %s (%s)", cs.Ord, cs.Callee, cs.Kind, cs.Src)})
+		}
 	}
 	for _, o := range c.obls {
 		o.Func = res.Key
@@ -507,4 +541,50 @@ func (v *Verifier) structuralGlobalStores() []string {
 	}
 	sort.Strings(out)
 	return out
+}
+
+var autoKeyRe = regexp.MustCompile(`^auto\[([^\]]*)\]`)
+
+// verifyWithCandidates runs the Houdini loop for automatically generated candidate invariants:
+// candidates whose own obligations do not discharge are dropped and the VCs regenerated, so
+// that no undischarged candidate is ever assumed.
+func (v *Verifier) verifyWithCandidates(fn *ssa.Function, fc *FuncContract) *FuncResult {
+	for round := 0; ; round++ {
+		res := v.verifyFunc(fn, fc)
+		if res.Err != "" || round >= 4 {
+			return res
+		}
+		var autos []*Obligation
+		for _, o := range res.Obls {
+			if strings.Contains(o.Kind, ".auto.") {
+				autos = append(autos, o)
+			}
+		}
+		if len(autos) == 0 {
+			return res
+		}
+		dropped := false
+		var wg sync.WaitGroup
+		var mu sync.Mutex
+		for _, o := range autos {
+			wg.Add(1)
+			go func(o *Obligation) {
+				defer wg.Done()
+				text := res.ctx.buildQuery(o)
+				r := solve(&Query{Name: o.Name + ".cand", Text: text}, v.Opts.WorkDir, 4, v.Opts.Solvers)
+				if r.Verdict != "unsat" {
+					if m := autoKeyRe.FindStringSubmatch(o.Desc); m != nil {
+						mu.Lock()
+						v.disabledAuto[m[1]] = true
+						dropped = true
+						mu.Unlock()
+					}
+				}
+			}(o)
+		}
+		wg.Wait()
+		if !dropped {
+			return res
+		}
+	}
 }
